@@ -486,5 +486,93 @@ theorem absoluteAs_refused {vf : Verifier} {c : Cert} {n : Bytes} {now : Int} (a
   rw [h]
   cases allowHTTP <;> decide
 
+/-! ## §7 histories of instance construction in one process -/
+
+theorem poolOf_mkBuilt (sys : List CA) (p : Proc) (cfg : TrustCfg) :
+    poolOf sys p (mkBuilt sys cfg).roots = trustOf sys cfg := by
+  unfold mkBuilt trustOf
+  split <;> rfl
+
+theorem mkBuilt_insecure (sys : List CA) (cfg : TrustCfg) : (mkBuilt sys cfg).insecure = cfg.insecure := by
+  unfold mkBuilt
+  split <;> rfl
+
+/-- with a pool of its own per instance, a probe sees the configuration of the probed instance only -/
+theorem probeOut_copied (sys sp : List CA) (cfgs : List TrustCfg) (i : Nat) (s : CA) :
+    probeOut sys ⟨sp, cfgs.map (mkBuilt sys)⟩ i s = specProbe sys cfgs i s := by
+  unfold probeOut specProbe
+  simp only [List.getElem?_map]
+  cases cfgs[i]? with
+  | none => rfl
+  | some cfg => simp [poolOf_mkBuilt, mkBuilt_insecure, trustsSigner]
+
+theorem runProc_copied (sys sp : List CA) (cfgs : List TrustCfg) (evs : List PEvent) :
+    runProc .copied sys ⟨sp, cfgs.map (mkBuilt sys)⟩ evs = specRun sys cfgs evs := by
+  induction evs generalizing cfgs with
+  | nil => rfl
+  | cons e es ih =>
+    cases e with
+    | build cfg =>
+      have := ih (cfgs ++ [cfg])
+      simp only [List.map_append, List.map_cons, List.map_nil] at this
+      simp only [runProc, pStep, buildStep, specRun, this]
+    | probe i s =>
+      simp only [runProc, pStep, specRun, probeOut_copied, ih]
+
+/-- the spec run, event by event: a probe at position `k` gets the verdict of the configuration
+    that the builds BEFORE position `k` gave instance `i` -/
+theorem specRun_getElem (sys : List CA) (cfgs : List TrustCfg) (evs : List PEvent) (k i : Nat) (s : CA)
+    (hk : evs[k]? = some (.probe i s)) :
+    (specRun sys cfgs evs)[k]? = some (specProbe sys (cfgs ++ buildsOf (evs.take k)) i s) := by
+  induction evs generalizing cfgs k with
+  | nil => simp at hk
+  | cons e es ih =>
+    cases k with
+    | zero =>
+      simp only [List.getElem?_cons_zero, Option.some.injEq] at hk
+      subst hk
+      simp [specRun, buildsOf]
+    | succ k =>
+      simp only [List.getElem?_cons_succ] at hk
+      cases e with
+      | build cfg =>
+        simp only [specRun, List.getElem?_cons_succ, List.take_succ_cons, buildsOf]
+        rw [ih (cfgs ++ [cfg]) k hk]
+        simp
+      | probe j t =>
+        simp only [specRun, List.getElem?_cons_succ, List.take_succ_cons, buildsOf]
+        exact ih cfgs k hk
+
+/-- instances built later do not renumber or change earlier ones -/
+theorem specProbe_append (sys : List CA) (cfgs more : List TrustCfg) (i : Nat) (s : CA) (cfg : TrustCfg)
+    (hi : cfgs[i]? = some cfg) : specProbe sys (cfgs ++ more) i s = specProbe sys cfgs i s := by
+  have hlt : i < cfgs.length := by
+    rcases Nat.lt_or_ge i cfgs.length with h | h
+    · exact h
+    · rw [List.getElem?_eq_none h] at hi; cases hi
+  unfold specProbe
+  rw [List.getElem?_append_left hlt]
+
+/-- verifications do not change the process: two states that answer every probe alike answer a
+    run of probes alike, whatever the pool handling -/
+theorem runProc_probes_congr (h h' : PoolHandling) (sys : List CA) (p q : Proc)
+    (hpq : ∀ i s, probeOut sys p i s = probeOut sys q i s) (ps : List PEvent)
+    (hp : ∀ e ∈ ps, ∃ i s, e = PEvent.probe i s) :
+    runProc h sys p ps = runProc h' sys q ps := by
+  induction ps with
+  | nil => rfl
+  | cons e es ih =>
+    obtain ⟨i, s, rfl⟩ := hp e (by simp)
+    simp only [runProc, pStep, hpq]
+    rw [ih (fun e he => hp e (by simp [he]))]
+
+theorem probeOut_single (sys : List CA) (cfg : TrustCfg) (i : Nat) (s : CA) :
+    probeOut sys (buildStep .shared sys (Proc.start sys) cfg) i s =
+      probeOut sys (buildStep .copied sys (Proc.start sys) cfg) i s := by
+  unfold buildStep mkBuilt Proc.start probeOut
+  cases i with
+  | zero => cases h : cfg.extra.isEmpty <;> simp [h, poolOf]
+  | succ n => cases h : cfg.extra.isEmpty <;> simp [h]
+
 end C07
 end FwdVerif
